@@ -23,6 +23,16 @@ CLAIMED = {
         note=TRUST, ref="5/C13"),
 }
 
+CLAIMED["C12"] = dict(
+    technique="static analysis: partial evaluation of eval_node's value-numbering summary for the two shortcut patterns and 22 near-miss node shapes; equation rules for compute_steady_states / compute_attractor_states; cache admission guard on shortcut stores",
+    text="For the two patterns exactly the shortcut path is feasible and its value is relative to the current graph (attractors of (graph, unit(graph)); steady_states & unit(graph)); for every near miss (other variable, domain on the binder, other quantifier, missing/extra/different operators, proposition instead of variable) no shortcut path is feasible and eval_node computes the generic bind equation; results stored by a shortcut path obey the cache admission guard. Context independence (top level, nested, in domain scopes, in batches) follows because the summary of eval_node is independent of the calling context. Agreement of the library's attractor / fixed-point algorithms with generic evaluation is assumed (L5), not decided.",
+    note=TRUST, ref="5/C12")
+CLAIMED["C18"] = dict(
+    category="proof",
+    technique="static analysis: non-interference proof obligations O1-O4 discharged on value-numbering summaries (dependence of eval_node's partially evaluated value on the steady-state parameter per operator shape; pipeline comparison of the unsafe entry point)",
+    text="Proof by induction on the formula, obligations discharged mechanically on the current source: (O1) for every operator outside {EX,AX,AF,EG,AU,EW} the value of eval_node does not depend on steady_states except verbatim in recursive calls; (O2) recursive calls pass it on unchanged; (O3) the steady-state shortcut is reachable only for nodes containing AX; (O4) model_check_formula_unsafe_ex differs from the standard pipeline only in that argument (same validator, same graph, a context that is from_multiple_trees(vec![tree]) field by field, the empty set of the same graph). Hence both variants return the same raw set on the fragment; on steady-state-free networks both pass an empty set.",
+    note=TRUST + "The proof is modulo L1, L2, L5 (library set algebra; FixedPoints::symbolic is empty when no colour has a steady state).", ref="5/C18")
+
 NOT_APPLICABLE = {
     "C09": "value-level property of a character-level rewriting (canonical strings coincide exactly for alpha-equivalent inputs, injectivity, idempotence, occurrence lower bounds); the only structural necessary condition (duplicates marked only for <= 1 variable) is a clause of C04 and is checked there (DESIGN.md section 9)",
 }
